@@ -1021,6 +1021,13 @@ class SQLObject(with_metaclass(declarative.DeclarativeMeta, object)):
                         "The object %s by the ID %s has been deleted" % (
                             self.__class__.__name__, self.id))
                 self._SO_selectInit(selectResults)
+                # Values assigned to a lazy object but not yet written
+                # stay what the object shows.
+                for name, dbValue in self._SO_createValues.items():
+                    to_python = getattr(self, '_SO_to_python_%s' % name, None)
+                    if to_python:
+                        dbValue = to_python(dbValue, self._SO_validatorState)
+                    setattr(self, instanceName(name), dbValue)
                 result = getattr(self, attrName)
                 return result
             finally:
